@@ -306,6 +306,12 @@ func bestPracticesCheck(token jwt.Token) error {
 		return errors.New("token nbf occurs before iat")
 	}
 
+	// Ensure the token is not expired. The JWT library does this as well, but it treats exp=0 (1970-01-01)
+	// and the zero time as 'no expiration': such a token would never expire.
+	if !time.Now().Before(token.Expiration()) {
+		return errors.New("token is expired")
+	}
+
 	// Ensure the subject field is non-empty
 	if token.Subject() == "" {
 		return errors.New("sub must not be empty")
